@@ -89,6 +89,32 @@ def check_maps(o, f2c, c2f, xb_reg, xb_gap_inner, pad, tag=""):
     o.metric("reference_diff", max(d1, d2))
     o.check(d1 <= 1e-11, "gap2duct_differs_from_reference" + tag, "%.3e" % d1)
     o.check(d2 <= 1e-11, "duct2gap_differs_from_reference" + tag, "%.3e" % d2)
+    # the transfer itself (the function the solver calls with these maps), on a uniform, a ramp and an irregular field
+    from dassh import mesh_functions
+    idx_g, idx_d = np.arange(nf, dtype=float), np.arange(len(wr), dtype=float)
+    for name, vg, vd in (("uniform", np.full(nf, 731.25), np.full(len(wr), 731.25)),
+                         ("ramp", 600.0 + idx_g, 600.0 + idx_d),
+                         ("irregular", 500.0 + 37.0 * ((7.0 * idx_g) % 5.0), 500.0 + 37.0 * ((11.0 * idx_d) % 7.0))):
+        vgp = np.zeros(pad)
+        vgp[:nf] = vg
+        g2d = np.asarray(mesh_functions.map_across_gap(vgp, f2c), float)
+        d2g = np.asarray(mesh_functions.map_across_gap(vd, c2f), float)
+        ok = g2d.shape == (len(wr),) and d2g.shape == (pad,)
+        o.check(ok, "transfer_shape" + tag, "%s %s" % (g2d.shape, d2g.shape))
+        if not ok:
+            continue
+        t1 = np.abs(g2d - f_ref @ vg).max() / 1e3
+        t2 = np.abs(d2g[:nf] - c_ref @ vd).max() / 1e3
+        o.metric("transfer_diff", max(t1, t2))
+        o.check(t1 <= 1e-11, "gap2duct_transfer_differs_from_reference" + tag, "%s field: %.3e" % (name, t1))
+        o.check(t2 <= 1e-11, "duct2gap_transfer_differs_from_reference" + tag, "%s field: %.3e" % (name, t2))
+        c1 = abs(float(wr @ g2d) - float(wf @ vg)) / (scale * 1e3)
+        c2 = abs(float(wf @ d2g[:nf]) - float(wr @ vd)) / (scale * 1e3)
+        o.check(c1 <= TOL, "gap2duct_transfer_not_conservative" + tag, "%s field: %.3e" % (name, c1))
+        o.check(c2 <= TOL, "duct2gap_transfer_not_conservative" + tag, "%s field: %.3e" % (name, c2))
+        if name == "uniform":
+            o.check(np.abs(g2d - 731.25).max() <= 1e-9 and np.abs(d2g[:nf] - 731.25).max() <= 1e-9,
+                    "uniform_field_not_reproduced" + tag)
     same = len(xf) == len(xb_reg) and np.allclose(xf, xb_reg, rtol=0, atol=1e-13)
     if same:
         o.check(np.array_equal(f2c[:, :nf], np.identity(nf)) and np.array_equal(c2f[:nf], np.identity(nf)),
